@@ -1,17 +1,21 @@
 #!/usr/bin/env python3
-"""Run the checks against every behaviour-preserving refactor under benign/ (on a scratch copy of /repo): the expected outcome
+"""Run the checks against every behaviour-preserving refactor under benign/ (or, with --dir neutral, every property-neutral
+behaviour change under neutral/) (on a scratch copy of /repo): the expected outcome
 is exit 0 everywhere.  Exit 2 (construct outside the verified subset) is tolerated but listed; exit 1 is a false alarm.
 usage: tools/run_benign.py [ids...]   -> prints one line per change, writes benign/RESULTS.json"""
 import json, os, shutil, subprocess, sys, time
 ROOT = os.path.dirname(os.path.dirname(os.path.abspath(__file__)))
-ids = sys.argv[1:] or sorted(os.listdir(os.path.join(ROOT, "benign")))
-ids = [s for s in ids if os.path.isdir(os.path.join(ROOT, "benign", s))]
+SUITE = "benign"
+if "--dir" in sys.argv:
+    i = sys.argv.index("--dir"); SUITE = sys.argv[i + 1]; del sys.argv[i:i + 2]
+ids = sys.argv[1:] or sorted(os.listdir(os.path.join(ROOT, SUITE)))
+ids = [s for s in ids if os.path.isdir(os.path.join(ROOT, SUITE, s))]
 sys.path.insert(0, ROOT)
 from contracts import meta as M
-resf = os.path.join(ROOT, "benign", "RESULTS.json")
+resf = os.path.join(ROOT, SUITE, "RESULTS.json")
 results = json.load(open(resf)) if os.path.exists(resf) else {}
 for sd in ids:
-    meta = json.load(open(os.path.join(ROOT, "benign", sd, "meta.json")))
+    meta = json.load(open(os.path.join(ROOT, SUITE, sd, "meta.json")))
     prop = meta["property"]
     # the property itself and every property that depends on tasks of it
     props = [prop] + sorted(p for p, d in M.DEPENDS.items() if any(t.startswith(prop + "/") or t.startswith("C0[23]") and prop in ("C02", "C03") for t, _ in d) and p != prop)
@@ -20,7 +24,7 @@ for sd in ids:
     shutil.rmtree(scratch, ignore_errors=True)
     os.makedirs(scratch)
     shutil.copytree("/repo/vopy", scratch + "/vopy")
-    p = subprocess.run(["patch", "-p1", "-s", "-i", os.path.join(ROOT, "benign", sd, "patch.diff")], cwd=scratch, capture_output=True, text=True)
+    p = subprocess.run(["patch", "-p1", "-s", "-i", os.path.join(ROOT, SUITE, sd, "patch.diff")], cwd=scratch, capture_output=True, text=True)
     if p.returncode != 0:
         print(sd, "PATCH FAILED", p.stdout, p.stderr); shutil.rmtree(scratch, ignore_errors=True); continue
     row = {}
